@@ -7,7 +7,7 @@
                                   maps of the other models mention no node of it.
      independent_all            : the statement for one model b in terms of TreeInv. *)
 From AV Require Import Base.Bytes Base.Outcome Hash.HashModel Tree.Heap Tree.Ops Tree.Script Tree.Inv
-  Tree.CopyProofsW Tree.CopyProofsDefs Tree.CopyProofsIrp Tree.CopyProofsIrpLib Tree.CopyProofsIrpOps.
+  Tree.CopyProofsW Tree.CopyProofsDefs Tree.CopyProofsIrp Tree.CopyProofsIrpLib Tree.CopyProofsGrow Tree.CopyProofsIrpOps.
 From Coq Require Import Lia PeanoNat.
 Open Scope string_scope.
 Open Scope list_scope.
@@ -138,15 +138,27 @@ Section Region.
 Variable P : id -> Prop.
 Variable PM : N -> Prop.
 Variable PF : N -> Prop.
-Notation irp := (irp P PM PF).
-Notation irpq := (irpq P PM PF).
 
-Lemma irp_welem c : irpq (fun i => ~ P i) c -> irp (welem c).
-Proof. intros H. unfold welem. eapply irpq_bind; [exact H|]. intros a _. apply irpq_ret. exact I. Qed.
-Lemma irp_wunit c : irp c -> irp (wunit c).
-Proof. intros H. unfold wunit. eapply irpq_bind; [exact H|]. intros a _. apply irpq_ret. exact I. Qed.
+Section Bounds.
+Variables L LM LF : N.
+Notation irpL := (irpL P PM PF L LM LF).
+Notation irpqL := (irpqL P PM PF L LM LF).
 
-Theorem irp_run_op o : op_apart P PM o -> irp (run o).
+Lemma grows_ret_after {A B} (g : A -> B) : forall a : A, grows (wret (g a)).
+Proof. intros a. apply grows_ro. apply ro_ret. Qed.
+
+Lemma irp_welem c : irpqL (fun i => ~ P i) c -> irpL (welem c).
+Proof.
+  intros H. unfold welem. eapply irpq_bind; [exact H|intros a; apply grows_ro; apply ro_ret|].
+  intros a _. apply irpq_ret. exact I.
+Qed.
+Lemma irp_wunit c : irpL c -> irpL (wunit c).
+Proof.
+  intros H. unfold wunit. eapply irpq_bind; [exact H|intros a; apply grows_ro; apply ro_ret|].
+  intros a _. apply irpq_ret. exact I.
+Qed.
+
+Theorem irp_run_opL o : op_apart P PM o -> irpL (run o).
 Proof.
   intros (Hh & Hm).
   destruct o; cbn [op_handles op_models] in Hh, Hm; cbn [run_op];
@@ -168,16 +180,23 @@ Proof.
   - apply irp_wunit. apply irp_e_remove_citem; assumption.
   - apply irp_wunit. apply irp_e_set_reference_target; assumption.
   - apply irp_wunit. apply irp_e_set_attribute; assumption.
-  - eapply irpq_bind; [apply irp_e_remove_attribute; assumption|]. intros a _. apply irpq_ret. exact I.
+  - eapply irpq_bind; [apply irp_e_remove_attribute; assumption|intros a; apply grows_ro; apply ro_ret|]. intros a _. apply irpq_ret. exact I.
   - apply irp_wunit. apply irp_e_set_comment; assumption.
   - apply irp_welem. apply irpq_e_get_or_create; assumption.
   - apply irp_welem. apply irpq_e_get_or_create_named; assumption.
-  - eapply irpq_bind; [apply irpq_new_model|]. intros a _. apply irpq_ret. exact I.
-  - eapply irpq_bind; [apply irpq_create_file; apply Hm; left; reflexivity|]. intros a _. apply irpq_ret. exact I.
+  - eapply irpq_bind; [apply irpq_new_model|intros a; apply grows_ro; apply ro_ret|]. intros a _. apply irpq_ret. exact I.
+  - eapply irpq_bind; [apply irpq_create_file; apply Hm; left; reflexivity|intros a; apply grows_ro; apply ro_ret|]. intros a _. apply irpq_ret. exact I.
   - apply irp_wunit. apply irp_remove_file. apply Hm. left. reflexivity.
   - apply irp_wunit. apply irp_add_to_file; assumption.
   - apply irp_wunit. apply irp_remove_from_file; assumption.
 Qed.
+End Bounds.
+
+Notation irp := (irp P PM PF).
+Notation irpq := (irpq P PM PF).
+
+Theorem irp_run_op o : op_apart P PM o -> irp (run o).
+Proof. intros H. apply irpq_of_L. intros L LM LF. apply irp_run_opL. exact H. Qed.
 
 Theorem independent_history l : forall w w',
   Sealed P PM PF w -> Forall (op_apart P PM) l -> run_ops l w = Val w' -> Sealed P PM PF w' /\ Same P PM PF w w'.
